@@ -1,6 +1,6 @@
 import PV.C07.Model
 import PV.C07.Spec
-import PV.C07.Lemmas4
+import PV.C07.Lemmas5
 import PV.Gen.C07Tables
 /-
   C07 — property theorems: f-strings decompose into the reference literal parts and replacement
@@ -147,7 +147,47 @@ example : parseFString (fun _ => none) .fstr [123, 32, 120, 32, 61, 32, 32, 33, 
 example : Spec.split (fun _ => none) true false [123, 32, 120, 32, 61, 32, 32, 33, 115, 125] 2
     = some [.lit [32, 120, 32, 61, 32, 32], .field [32, 120, 32] 3 .str none] := by rfl
 
+/-! ### the domain is part of the reference -/
+
+/-- Wherever the strict scanner answers, the reference scanner gives the same answer: the theorem's
+    domain is a set of f-strings the reference accepts, with their reference decomposition. -/
+theorem strict_is_restriction (lookup : List Nat → Option Nat) (raw : Bool) (body : List Nat) (off : Nat)
+    (ps : List Piece) (h : Spec.split lookup true raw body off = some ps) :
+    Spec.split lookup false raw body off = some ps :=
+  split_strict_le lookup raw body off ps h
+
 /-! ### field offsets -/
+
+/-- Every field the reference scanner reports (nested ones included, `fieldsOf`) carries the offset
+    of its own text: `body = pre ++ text ++ post` and `start = off + utf8 length of pre` — where
+    `off` is the offset of the body's first character.  With `fstring_eq_spec_partial` these are the
+    `(text, start)` pairs of the Rust scanner, i.e. the offsets `parse_fstring_expr` re-bases the
+    expression parser to. -/
+theorem field_offsets (lookup : List Nat → Option Nat) (strict raw : Bool) (body : List Nat) (off : Nat)
+    (ps : List Piece) (h : Spec.split lookup strict raw body off = some ps) :
+    ∀ p ∈ fieldsOf ps, At body off p := by
+  unfold Spec.split at h
+  cases hp : Spec.parts lookup strict raw (4 * body.length + 16) 0 false ⟨[], []⟩ body off with
+  | none => simp [hp] at h
+  | some q =>
+    obtain ⟨ps', r, o⟩ := q
+    simp [hp] at h
+    subst h
+    exact ((located lookup strict raw body off _).2 _ _ _ _ _ _ _ _ hp ⟨[], rfl, rfl⟩
+      (by simp [fieldsOf])).2
+
+/-- … and the body the scanner works on is the source text itself as long as the literal contains
+    no CR: what `lex_string` captures (`v`) is the slice of the source between the quotes, so an
+    offset into the token value is an offset into the file.  (`q` is the quote character.) -/
+theorem capture_no_cr (q : Nat) (hq : csize q = 1) (triple : Bool) (fuel : Nat) (cs : List Nat) (loc : Nat)
+    (v rest : List Nat) (stop : Nat) (hcr : ∀ x ∈ cs, x ≠ 13)
+    (h : lexStringGo q triple fuel cs loc = .ok (v, rest, stop)) :
+    ∃ close, cs = v ++ close ++ rest ∧ stop = loc + utf8Len v + close.length ∧
+      close = (if triple then [q, q, q] else [q]) :=
+  capture_noCR q hq triple fuel cs loc v rest stop hcr h
+
+example : fieldsOf [.lit [97], .field [120] 4 .repr (some [.lit [62], .field [119] 10 .none none])]
+    = [([120], 4), ([119], 10)] := by simp [fieldsOf, pieceFields]
 
 /-- `f'''\r\n{x}'''`: the lexer hands `\n{x}` (CRLF folded) to the scanner, which places `x` at
     byte 6; in the source the text of `x` is at byte 7. -/
